@@ -2,10 +2,10 @@
    Proofs.QueryProofs (comparison methods, labels) and Proofs.SmartsProofs (bracket-atom parser, construction, bond
    tokens).  Gen.Elements, Gen.TokenTables and Gen.SmartsTables are regenerated from /repo on every run. *)
 From Coq Require Import ZArith List String Ascii Bool Permutation.
-From Gen Require Import Elements TokenTables SmartsTables.
+From Gen Require Import Elements TokenTables SmartsTables QueryParseBody QueryEqBody LabelsBody.
 From Model Require Import PyBase Graph PeriodicTable Tokenize Smarts Query SmartsFull.
 From Model Require Parser.
-From Proofs Require Import QueryProofs TokenizeProofs SmartsProofs SmartsRoundtrip SmartsParser SmartsFullProofs SmartsDenote SmartsDenoteText SmartsTree SmartsTreeText SmartsStereo SmartsRing SmartsRingText SmartsMolMatch SmartsPins SmartsNumbers SmartsDots SmartsDotsText SmartsCanonical SmartsRingDots SmartsRingDotsText.
+From Proofs Require Import QueryProofs TokenizeProofs SmartsProofs SmartsRoundtrip SmartsParser SmartsFullProofs SmartsDenote SmartsDenoteText SmartsTree SmartsTreeText SmartsStereo SmartsRing SmartsRingText SmartsMolMatch SmartsPins SmartsNumbers SmartsDots SmartsDotsText SmartsCanonical SmartsRingDots SmartsRingDotsText QueryParseTie QueryParseSep QueryParseSep2 QueryEqTie LabelsTie.
 Import ListNotations.
 Open Scope Z_scope.
 
@@ -732,3 +732,129 @@ Theorem C08_full_text_example :
       [mkSB 1 0 (mkQB [2] None) None; mkSB 2 0 (mkQB [1] None) None; mkSB 3 2 (mkQB [1] None) None]).
 Proof. exact full_text_example. Qed.
 Print Assumptions C08_full_text_example.
+
+(* ---------------------------------------------------------------------------------------------------------------- *)
+(* TIE BY TRANSLATION (round 4): Gen.QueryParseBody.g_query_parse is regenerated on every run from the statements of
+   chython/files/daylight/tokenize.py:_query_parse (tools/gen_queryparse.py: the four scan blocks with their slicing, the
+   charge_dict lookup with its except clause, the split, the element comprehension and its scalar / list normalisation, the
+   whole primitive loop with continue / raise, the letter dispatch).  It equals the hand-written model all theorems about
+   bracket atoms are stated for, on EVERY token (inj_parsed: a one-item element list = the scalar case of the dict). *)
+Theorem C08_query_parse_translated : forall t,
+  g_query_parse t = match query_parse t with Ok p => Ok (inj_parsed p) | Err e => Err e end.
+Proof. exact g_query_parse_eq. Qed.
+Print Assumptions C08_query_parse_translated.
+
+Theorem C08_prim_loop_translated : forall ps out,
+  g_qp_loop0 (inj_parsed out) ps = match prim_loop out ps with Ok p => Ok (inj_parsed p) | Err e => Err e end.
+Proof. exact loop_eq. Qed.
+Print Assumptions C08_prim_loop_translated.
+
+(* stated for the generated function itself: an empty segment - what a charge or stereo mark written as a ';' segment of its
+   own leaves behind - is skipped and the loop goes on with the remaining primitives; only the two documented exception
+   classes can come out *)
+Theorem C08_translated_empty_segment_skipped : forall out ps, g_qp_loop0 out ([] :: ps) = g_qp_loop0 out ps.
+Proof. exact g_empty_segment_skipped. Qed.
+Print Assumptions C08_translated_empty_segment_skipped.
+
+Theorem C08_translated_query_parse_errors : forall t e, g_query_parse t = Err e -> e = IncorrectSmarts \/ e = ValueError.
+Proof. exact g_query_parse_errors. Qed.
+Print Assumptions C08_translated_query_parse_errors.
+
+Theorem C08_translated_query_parse_example :
+  g_query_parse (s2l "13C,#7;@@;D1,D2;-2;h0;!R;M:7") =
+    Ok (mkG (Some 13) (Some (-2)) (Some 7) (Some false) (Some (EList [ESym (s2l "C"); ENum 7])) (Some [1; 2]) (Some [0]) (Some (IInt 0)) None None true) /\
+  g_query_parse (s2l "N;+;D3") = Ok (mkG None (Some 1) None None (Some (EScalar (ESym (s2l "N")))) (Some [3]) None None None None false) /\
+  g_query_parse (s2l "N;D3;+") = g_query_parse (s2l "N+;D3") /\
+  g_query_parse (s2l "C;D1,h1") = Err IncorrectSmarts /\ g_query_parse (s2l "#x") = Err ValueError.
+Proof. exact g_query_parse_example. Qed.
+Print Assumptions C08_translated_query_parse_example.
+
+(* ---------------------------------------------------------------------------------------------------------------- *)
+(* FROM SEARCH TO THEOREM (round 4): the position of a ';'-separated charge mark.  For EVERY bracket body: one of the 14 texts
+   the charge scan can return, written as a ';' segment of its own after a part x without sign characters and without ':'
+   (the mark stands before the mapping) and followed by nothing or by the next ';' segment, is parsed exactly as the same text
+   glued in place - whatever x and y contain otherwise (isotope, element list, stereo mark, primitives, malformed text, mapping
+   in y).  With query_roundtrip (glued canonical spelling) this covers the documented preferable spelling [N;+;D3] / [N;D3;+]. *)
+Theorem C08_charge_position_independent : forall x g y,
+  clean is_sign x -> clean is_colon x -> In g charge_groups -> sep_tail y ->
+  query_parse (x ++ ";"%char :: g ++ y)%list = query_parse (x ++ g ++ y)%list.
+Proof. exact charge_position_independent. Qed.
+Print Assumptions C08_charge_position_independent.
+
+Theorem C08_charge_position_example :
+  (clean is_sign (s2l "13N;@;D3") /\ clean is_colon (s2l "13N;@;D3") /\ In (s2l "+2") charge_groups /\ sep_tail (s2l ";h1:7")) /\
+  query_parse (s2l "13N;@;D3;+2;h1:7") = query_parse (s2l "13N;@;D3+2;h1:7") /\
+  query_parse (s2l "N;+;D3") = query_parse (s2l "N+;D3") /\ query_parse (s2l "N;D3;+") = query_parse (s2l "N;D3+") /\
+  exists p, query_parse (s2l "13N;@;D3;+2;h1:7") = Ok p /\ p_charge p = Some 2 /\ p_nb p = Some [3] /\ p_h p = Some [1] /\ p_mapping p = Some 7.
+Proof. exact charge_position_example. Qed.
+Print Assumptions C08_charge_position_example.
+
+(* the same for the stereo mark: '@' / '@@' as a ';' segment of its own after a part x without '@' and ':' - wherever the
+   charge mark stands (in x or y, glued or separated: the charge scan runs first and cuts the same group out of both spellings) *)
+Theorem C08_stereo_position_independent : forall x g y,
+  clean is_at x -> clean is_colon x -> stereo_mark g -> sep_tail y ->
+  query_parse (x ++ ";"%char :: g ++ y)%list = query_parse (x ++ g ++ y)%list.
+Proof. exact stereo_position_independent. Qed.
+Print Assumptions C08_stereo_position_independent.
+
+Theorem C08_stereo_position_example :
+  (clean is_at (s2l "13C;+;D3") /\ clean is_colon (s2l "13C;+;D3") /\ stereo_mark (s2l "@@") /\ sep_tail (s2l ";h1;M:7")) /\
+  query_parse (s2l "13C;+;D3;@@;h1;M:7") = query_parse (s2l "13C;+;D3@@;h1;M:7") /\
+  query_parse (s2l "C;@;-;h1") = query_parse (s2l "C@;-;h1") /\ query_parse (s2l "C;h1;@") = query_parse (s2l "C;h1@") /\
+  exists p, query_parse (s2l "13C;+;D3;@@;h1;M:7") = Ok p /\ p_stereo p = Some false /\ p_charge p = Some 1 /\ p_nb p = Some [3] /\
+            p_h p = Some [1] /\ p_masked p = true /\ p_mapping p = Some 7.
+Proof. exact stereo_position_example. Qed.
+Print Assumptions C08_stereo_position_example.
+
+(* ---------------------------------------------------------------------------------------------------------------- *)
+(* TIE BY TRANSLATION (round 4) of the comparison methods: Gen.QueryEqBody.g_eq_<Class> is regenerated on every run from the
+   statements of QueryElement / AnyElement / ListElement / AnyMetal.__eq__ (tools/gen_queryeq.py: every if / elif / return with
+   its test, attributes mapped to the fields of the model records) and equals the hand-written model the match theorems
+   (match_spec, match in the molecule) are stated for - for EVERY query atom and EVERY labelled atom, TypeError case included. *)
+Theorem C08_eq_methods_translated : forall q a, g_match_atom q a = match_atom q a.
+Proof. exact g_match_atom_eq. Qed.
+Print Assumptions C08_eq_methods_translated.
+
+Theorem C08_eq_methods_translated_each :
+  (forall num iso x a, g_eq_QueryElement num iso x a = match_q num iso x a) /\ (forall x a, g_eq_AnyElement x a = match_any x a) /\
+  (forall nums x a, g_eq_ListElement nums x a = match_list nums x a) /\ (forall nb hyb a, g_eq_AnyMetal nb hyb a = match_metal nb hyb a).
+Proof. exact (conj g_eq_QueryElement_eq (conj g_eq_AnyElement_eq (conj g_eq_ListElement_eq g_eq_AnyMetal_eq))). Qed.
+Print Assumptions C08_eq_methods_translated_each.
+
+Theorem C08_eq_methods_translated_example :
+  g_match_atom (QElem 7 None (mkQX 1 false [3] [] [1] [] [] false)) (mkLA 7 None 1 false 3 1 (Some 1) 0 []) = Ok true /\
+  g_match_atom (QElem 7 None (mkQX 1 false [3] [] [1] [] [] false)) (mkLA 7 None 1 false 4 1 (Some 0) 0 []) = Ok false /\
+  g_match_atom (QList [17; 35] (mkQX 0 false [] [] [] [] [5; 6] false)) (mkLA 6 None 0 false 2 1 (Some 2) 0 [6]) = Ok false /\
+  g_match_atom (QAny (mkQX 0 false [] [] [] [] [0] false)) (mkLA 6 None 0 false 2 1 (Some 2) 0 [6]) = Ok false /\
+  g_match_atom (QMetal [] []) (mkLA 26 None 2 false 0 1 (Some 0) 0 []) = Ok true /\
+  g_match_atom (QAny (mkQX 0 false [] [] [] [] [5] true)) (mkLA 6 None 0 false 2 1 (Some 2) 0 [5]) = Err TypeError.
+Proof. exact g_match_atom_example. Qed.
+Print Assumptions C08_eq_methods_translated_example.
+
+(* TIE BY TRANSLATION (round 4) of the label loop of MoleculeContainer.calc_labels (molecule.py lines 534-560): the counters
+   before the loop and one pass of `for m, bond in m_bond.items()` are regenerated on every run (tools/gen_labels.py ->
+   Gen.LabelsBody; the ring mark bond._in_ring is recognised and left to bond_ring_label) and equal the hand-written step the
+   labels_spec theorems are stated for, so labels_of IS the fold of the translated step from the translated start value. *)
+Theorem C08_label_step_translated : forall st mb, g_label_step st mb = label_step st mb.
+Proof. exact g_label_step_eq. Qed.
+Print Assumptions C08_label_step_translated.
+
+Theorem C08_labels_of_translated : forall env, labels_of env = fold_left g_label_step env g_label_init.
+Proof. exact labels_of_translated. Qed.
+Print Assumptions C08_labels_of_translated.
+
+Theorem C08_labels_translated_example :
+  fold_left g_label_step [(6, 4); (8, 2); (6, 4)] g_label_init = (3, 1, 4, 0) /\
+  fold_left g_label_step [(8, 2); (6, 4); (6, 4)] g_label_init = (3, 1, 4, 0) /\
+  fold_left g_label_step [(6, 2); (1, 1); (7, 2); (26, 8)] g_label_init = (3, 1, 3, 1).
+Proof. exact g_label_example. Qed.
+Print Assumptions C08_labels_translated_example.
+
+(* the same two facts for the query atom smarts('[body]') builds (Query.smarts_atom = _query_parse + class dispatch + setters) *)
+Theorem C08_mark_position_atom : forall x g y,
+  (clean is_sign x -> clean is_colon x -> In g charge_groups -> sep_tail y ->
+   smarts_atom (x ++ ";"%char :: g ++ y)%list = smarts_atom (x ++ g ++ y)%list) /\
+  (clean is_at x -> clean is_colon x -> stereo_mark g -> sep_tail y ->
+   smarts_atom (x ++ ";"%char :: g ++ y)%list = smarts_atom (x ++ g ++ y)%list).
+Proof. intros x g y. split; [apply charge_position_atom | apply stereo_position_atom]. Qed.
+Print Assumptions C08_mark_position_atom.
